@@ -1,7 +1,7 @@
 (* C06 — quasiseparable inverses and triangular solves are exact (statements only). Any field. *)
 From mathcomp Require Import all_ssreflect all_algebra.
 From TinyGP Require Import Base.Ops Base.LMat Model.QSMCore Model.QSMSolve
-  Theory.MxRefine Theory.QSMDen Theory.QSMMatmul Theory.QSMTriInv Theory.QSMTriInvU.
+  Theory.MxRefine Theory.QSMDen Theory.QSMMatmul Theory.QSMTriInv Theory.QSMTriInvU Theory.QSMSqInvAbs Theory.QSMSqInv.
 Set Implicit Arguments. Unset Strict Implicit. Unset Printing Implicit Defensive.
 Import GRing.Theory.
 Local Open Scope ring_scope.
@@ -42,3 +42,35 @@ Theorem C06_upper_inv_two_sided (F : fieldType) sq lt (d : vec F) (u : tri F) :
   den (tn u) (Upper d u) *m den (tn u) Ui = 1%:M /\ den (tn u) Ui *m den (tn u) (Upper d u) = 1%:M.
 Proof. exact: upper_inv_two_sided. Qed.
 Print Assumptions C06_upper_inv_two_sided.
+
+(* `den k A` with k <= n is the leading k x k block of `den n A`: the entries depend on the generators only *)
+Theorem C06_leading_block (F : fieldType) k n (le : (k <= n)%N) (A : qsm F) (i j : 'I_k) :
+  den k A i j = den n A (widen_ord le i) (widen_ord le j).
+Proof. by case: A => [n' d|l|u|d l|d u|d l u|d l]; rewrite /den /den_diag /den_sl_at /denSL !mxE. Qed.
+
+(* SquareQSM.inv: a two-sided inverse of the same kind whenever all leading principal blocks are non-singular
+   (non-symmetric matrices, unequal orders, non-commuting transition matrices included) *)
+Theorem C06_square_inv_two_sided (F : fieldType) sq lt (d : vec F) (l u : tri F) :
+  (forall k, (k <= tn l)%N -> \det (den k (Square d l u)) != 0) ->
+  let r := square_inv (fops sq lt) d l u in
+  den (tn l) (Square d l u) *m den (tn l) (Square r.1.1 r.1.2 r.2) = 1%:M /\
+  den (tn l) (Square r.1.1 r.1.2 r.2) *m den (tn l) (Square d l u) = 1%:M.
+Proof. exact: square_inv_sound_minors. Qed.
+Print Assumptions C06_square_inv_two_sided.
+
+(* SymmQSM.inv: the same for symmetric matrices; the result is again symmetric *)
+Theorem C06_symm_inv_two_sided (F : fieldType) sq lt (d : vec F) (l : tri F) :
+  (forall k, (k <= tn l)%N -> \det (den k (Symm d l)) != 0) ->
+  let r := symm_inv (fops sq lt) d l in
+  den (tn l) (Symm d l) *m den (tn l) (Symm r.1 r.2) = 1%:M /\
+  den (tn l) (Symm r.1 r.2) *m den (tn l) (Symm d l) = 1%:M.
+Proof. exact: symm_inv_sound_minors. Qed.
+Print Assumptions C06_symm_inv_two_sided.
+
+(* the pivots of the elimination are exactly what must not vanish: A = (1 + L) diag(pivots) (1 + U) *)
+Theorem C06_square_inv_pivots (F : fieldType) sq lt (d : vec F) (l u : tri F) :
+  (forall k, (k < tn l)%N -> sq_pivot d l u k != 0) ->
+  let r := square_inv (fops sq lt) d l u in
+  den (tn l) (Square d l u) *m den (tn l) (Square r.1.1 r.1.2 r.2) = 1%:M /\
+  den (tn l) (Square r.1.1 r.1.2 r.2) *m den (tn l) (Square d l u) = 1%:M.
+Proof. exact: square_inv_sound. Qed.
